@@ -309,7 +309,7 @@ def Machine.call (M : Machine) (o : SemOpts) (s : Int) (x : Nat) : CTree :=
 /-- The per-symbol step of the symbolic machine: a yield that has not consumed the byte is
     followed by the re-invocation on the same byte (`fuelY` bounds such re-invocations). -/
 def Machine.step (M : Machine) (o : SemOpts) : Nat → Int → Nat → MTree
-  | 0, _, _ => retHalt "SPIN"
+  | 0, _, _ => retHalt "YSPIN"
   | fuelY + 1, s, x =>
     (M.call o s x).bind fun l =>
       match l with
